@@ -271,6 +271,22 @@ func genInp(r *hx.RNG) inp {
 	return inp{e: &e}
 }
 
+// genBs draws an Opt.Bootstrap value: mostly an IP with or without port.
+func genBs(r *hx.RNG) inp {
+	switch r.Intn(8) {
+	case 0:
+		return inp{raw: genGarbage(r)}
+	case 1:
+		e := genEp(r, 1, 4)
+		return inp{e: &e}
+	case 2:
+		return inp{}
+	}
+	e := hx.Pick(r, []ep{name("1.2.3.4"), namep("1.2.3.4", "5353"), v6("::1", false), v6p("2001:db8::1", "53"),
+		name("8.8.8.8"), namep("10.0.0.53", "65535"), v6("2001:db8::53", false)})
+	return inp{e: &e}
+}
+
 var schemes = []string{"udp", "tcp", "tcp+pipeline", "tls", "tls+pipeline", "https", "h3", "quic", "doq"}
 var badSchemes = []string{"http", "dns", "tls+x", "udp+pipeline", "h3+pipeline", "tcp+", "ftp", "h2", "sdns"}
 var paths = []string{"", "", "/", "/dns-query", "/a/b", "//x", "/a:b"}
@@ -446,6 +462,27 @@ func runNew(w *hx.Writer, id string, u uin, socks bool) {
 	}
 	emit(w, "new", id, hx.App("CNew", u.coq(), hx.Bool(socks), hx.Bool(ok)),
 		map[string]any{"addr": u.addrStr(), "dial_addr": u.dialStr(), "socks5": socks, "created": ok})
+}
+
+func runNewB(w *hx.Writer, id string, u uin, bs inp) {
+	opt := upstream.Opt{DialAddr: u.dialStr(), Bootstrap: bs.str()}
+	var ok bool
+	if !guarded(w, id, u.addrStr(), bs.str(), func() {
+		up, err := upstream.NewUpstream(u.addrStr(), opt)
+		ok = err == nil
+		if err == nil {
+			up.Close() // the bootstrap server is only contacted when a connection is needed
+		}
+	}) {
+		return
+	}
+	host := ""
+	if bs.e != nil {
+		host = bs.e.host
+	}
+	_, iperr := netip.ParseAddr(host)
+	emit(w, "new-bootstrap", id, hx.App("CNewB", u.coq(), bs.coq(), hx.Bool(iperr == nil), hx.Bool(ok)),
+		map[string]any{"addr": u.addrStr(), "dial_addr": u.dialStr(), "bootstrap": bs.str(), "created": ok})
 }
 
 // ---------- network level ----------
@@ -727,6 +764,82 @@ type netSpec struct {
 	u      uin
 	cert   string // "" = none; name or IP the server certificate is issued for
 	direct bool   // tcp based transport without the proxy: loopback TCP listeners see the connection
+	boot   *bootSpec
+}
+
+// bootSpec: Opt.Bootstrap points at a DNS server of the harness that answers
+// every name with the address ans (an A record, or AAAA when ver is 6).
+type bootSpec struct {
+	ans  string
+	ver  int
+	srv6 bool // the server listens on [::1] instead of 127.0.0.1
+}
+
+type bootSrv struct {
+	pc    *net.UDPConn
+	mu    sync.Mutex
+	names []string
+}
+
+func startBoot(b *bootSpec) (*bootSrv, error) {
+	ip := "127.0.0.1"
+	if b.srv6 {
+		ip = "::1"
+	}
+	pc, err := net.ListenUDP("udp", net.UDPAddrFromAddrPort(netip.AddrPortFrom(netip.MustParseAddr(ip), 0)))
+	if err != nil {
+		return nil, err
+	}
+	srv := &bootSrv{pc: pc}
+	ans := netip.MustParseAddr(b.ans)
+	go func() {
+		buf := make([]byte, 4096)
+		for {
+			n, from, err := pc.ReadFromUDP(buf)
+			if err != nil {
+				return
+			}
+			q := new(dns.Msg)
+			if q.Unpack(buf[:n]) != nil || len(q.Question) != 1 {
+				continue
+			}
+			srv.mu.Lock()
+			srv.names = append(srv.names, q.Question[0].Name)
+			srv.mu.Unlock()
+			r := new(dns.Msg)
+			r.SetReply(q)
+			hdr := dns.RR_Header{Name: q.Question[0].Name, Class: dns.ClassINET, Ttl: 600}
+			switch {
+			case q.Question[0].Qtype == dns.TypeA && ans.Is4():
+				hdr.Rrtype = dns.TypeA
+				r.Answer = []dns.RR{&dns.A{Hdr: hdr, A: net.IP(ans.AsSlice())}}
+			case q.Question[0].Qtype == dns.TypeAAAA && ans.Is6():
+				hdr.Rrtype = dns.TypeAAAA
+				r.Answer = []dns.RR{&dns.AAAA{Hdr: hdr, AAAA: net.IP(ans.AsSlice())}}
+			}
+			if out, err := r.Pack(); err == nil {
+				pc.WriteToUDP(out, from)
+			}
+		}
+	}()
+	return srv, nil
+}
+
+func (b *bootSrv) addr() string { return b.pc.LocalAddr().String() }
+
+func (b *bootSrv) asked() []string {
+	b.mu.Lock()
+	defer b.mu.Unlock()
+	seen := map[string]bool{}
+	var out []string
+	for _, n := range b.names {
+		if !seen[n] {
+			seen[n] = true
+			out = append(out, hx.Str(n))
+		}
+	}
+	sort.Strings(out)
+	return out
 }
 
 func schemeMode(s string) (mode string, socks bool, defPort int) {
@@ -798,8 +911,19 @@ func runNetOnce(id string, ns netSpec) (netResult, bool) {
 	var wg sync.WaitGroup
 
 	san := "SanNone"
-	if ns.direct {
+	if ns.direct || ns.boot != nil {
 		socks = false
+	}
+	direct := !socks && (mode == "tcp" || mode == "tls" || mode == "https")
+	var bsrv *bootSrv
+	if ns.boot != nil {
+		var err error
+		if bsrv, err = startBoot(ns.boot); err != nil {
+			return netResult{}, false
+		}
+		closers = append(closers, func() { bsrv.pc.Close() })
+		opt.Bootstrap = bsrv.addr()
+		opt.BootstrapVer = ns.boot.ver
 	}
 	var tlsCfg *tls.Config
 	var httpL *chanListener
@@ -869,7 +993,7 @@ func runNetOnce(id string, ns netSpec) (netResult, bool) {
 			}
 		}
 		for p := range ports {
-			if !ns.direct {
+			if !direct {
 				break
 			}
 			for _, ip := range loopIPs {
@@ -899,7 +1023,7 @@ func runNetOnce(id string, ns netSpec) (netResult, bool) {
 			}
 		}
 		for p := range ports {
-			if ns.direct {
+			if direct {
 				break
 			}
 			for _, ip := range loopIPs {
@@ -980,6 +1104,20 @@ func runNetOnce(id string, ns netSpec) (netResult, bool) {
 	}
 	starved := created && !exchOK && mode != "quic" && rec.n <= 3 &&
 		(strings.Contains(exchErr, "deadline exceeded") || strings.Contains(exchErr, "timeout"))
+	if mode == "quic" && created && rec.n == 0 {
+		starved = true // no datagram at all within the generous limit
+	}
+	if bsrv != nil {
+		if created {
+			obs = hx.Some(hx.Tuple(hx.List(rec.dests()), hx.List(bsrv.asked()), hx.Str(rec.sniObserved()),
+				hx.Str(rec.hostObserved()), hx.Bool(exchOK)))
+		}
+		return netResult{kind: "boot-" + mode,
+			coq: hx.App("CBoot", u.coq(), hx.Str(opt.Bootstrap), ipBytes(netip.MustParseAddr(ns.boot.ans)), san, obs),
+			desc: map[string]any{"addr": u.addrStr(), "dial_addr": u.dialStr(), "bootstrap": opt.Bootstrap, "answer": ns.boot.ans,
+				"cert_for": ns.cert, "created": created, "destinations": rec.dests(), "asked": bsrv.asked(), "sni": rec.sniObserved(),
+				"http_host": rec.hostObserved(), "exchange_ok": exchOK, "exchange_err": exchErr, "connects": rec.n}, starved: starved}, true
+	}
 	return netResult{kind: "net-" + mode, coq: hx.App("CNet", u.coq(), hx.Bool(socks), san, obs),
 		desc: map[string]any{"addr": u.addrStr(), "dial_addr": u.dialStr(), "cert_for": ns.cert, "created": created,
 			"destinations": rec.dests(), "sni": rec.sniObserved(), "http_host": rec.hostObserved(), "exchange_ok": exchOK,
@@ -1069,6 +1207,25 @@ func netCatalogue(p1, p2 string) []netSpec {
 		{u: mean("https", v6p("::1", p1), "/dns-query", nil), cert: "::1", direct: true},
 		{u: mean("https", name("dns.example"), "/dns-query", pe(name("127.0.0.2"))), cert: "dns.example", direct: true},
 		{u: mean("https", v6("0:0:0:0:0:0:0:1", false), "/dns-query", nil), cert: "::1", direct: true},
+		// Opt.Bootstrap: the host is resolved by the harness DNS server, the port must stay
+		{u: mean("tls", namep("dns.example", p1), "", nil), cert: "dns.example", boot: &bootSpec{ans: "127.0.0.2"}},
+		{u: mean("tls", name("dns.example"), "", nil), cert: "dns.example", boot: &bootSpec{ans: "127.0.0.3"}},
+		{u: mean("tls+pipeline", namep("dns.example", p1), "", pe(namep("other.example", p2))), cert: "dns.example", boot: &bootSpec{ans: "127.0.0.2"}},
+		{u: mean("tls", namep("dns.example", p1), "", pe(name("other.example"))), cert: "dns.example", boot: &bootSpec{ans: "127.0.0.3"}},
+		{u: mean("tls", namep("dns.example", p1), "", pe(namep("127.0.0.3", p2))), cert: "dns.example", boot: &bootSpec{ans: "127.0.0.2"}},
+		{u: mean("tls", namep("dns.example", p1), "", nil), cert: "dns.example", boot: &bootSpec{ans: "::1", ver: 6, srv6: true}},
+		{u: mean("https", namep("dns.example", p1), "/dns-query", nil), cert: "dns.example", boot: &bootSpec{ans: "127.0.0.2"}},
+		{u: mean("https", name("dns.example"), "/dns-query", nil), cert: "dns.example", boot: &bootSpec{ans: "127.0.0.3"}},
+		{u: mean("https", namep("dns.example", p1), "/dns-query", pe(namep("x-1.example.org", p2))), cert: "dns.example", boot: &bootSpec{ans: "::1", ver: 6}},
+		{u: mean("quic", namep("dns.example", p1), "", nil), boot: &bootSpec{ans: "127.0.0.2"}},
+		{u: mean("doq", name("dns.example"), "", nil), boot: &bootSpec{ans: "127.0.0.3"}},
+		{u: mean("h3", namep("dns.example", p1), "/dns-query", pe(namep("other.example", p2))), boot: &bootSpec{ans: "127.0.0.2"}},
+		{u: mean("h3", name("dns.example"), "/dns-query", nil), boot: &bootSpec{ans: "::1", ver: 6}},
+		{u: mean("quic", namep("127.0.0.2", p1), "", nil), boot: &bootSpec{ans: "127.0.0.3"}},
+		{u: mean("tcp", namep("dns.example", p1), "", nil), boot: &bootSpec{ans: "127.0.0.2"}},
+		{u: mean("udp", namep("dns.example", p1), "", nil), boot: &bootSpec{ans: "127.0.0.2"}},
+		{u: mean("tcp", namep("127.0.0.2", p1), "", nil), boot: &bootSpec{ans: "127.0.0.3"}},
+		{u: mean("tls+pipeline", namep("localhost", p1), "", pe(v6p("::1", p2))), cert: "localhost", boot: &bootSpec{ans: "127.0.0.2"}},
 	}
 }
 
@@ -1175,6 +1332,22 @@ func genNet(r *hx.RNG) netSpec {
 		}
 	}
 	ns := netSpec{u: u, direct: direct}
+	if !socks && mode != "udp" && r.Chance(1, 2) {
+		// resolve through the harness bootstrap server: hostnames instead of (some of) the loopback literals
+		ns.boot = &bootSpec{ans: hx.Pick(r, []string{"127.0.0.2", "127.0.0.3"})}
+		if r.Chance(1, 4) {
+			ns.boot = &bootSpec{ans: "::1", ver: 6, srv6: r.Bool()}
+		}
+		hn := func() string { return hx.Pick(r, []string{"dns.example", "x-1.example.org", "a", "dns", "localhost"}) }
+		if u.dial != nil && r.Chance(2, 3) {
+			d := *u.dial
+			u.dial = &ep{host: hn(), port: d.port}
+		}
+		if u.dial == nil || r.Bool() {
+			u.e = ep{host: hn(), port: u.e.port}
+		}
+		ns.u = u
+	}
 	if s == "tls" || s == "tls+pipeline" || s == "https" {
 		ns.cert = u.e.host
 		if r.Chance(1, 5) && u.dial != nil {
@@ -1277,6 +1450,18 @@ func main() {
 		}
 	}
 
+	for i, b := range []inp{{e: pe(name("1.2.3.4"))}, {e: pe(namep("1.2.3.4", "5353"))}, {e: pe(v6("::1", false))},
+		{e: pe(v6p("::1", "53"))}, {e: pe(v6("::1", true))}, {e: pe(name("dns.example"))}, {e: pe(namep("1.2.3.4", "65536"))},
+		{e: pe(namep("1.2.3.4", ""))}, {e: pe(namep("1.2.3.4", "0"))}, {raw: "[::1"}, {raw: "1.2.3.4:53:"}, {}} {
+		for j, u := range []uin{mean("tls", namep("dns.example", "8853"), "", nil), mean("udp", name("1.2.3.4"), "", nil),
+			mean("h3", name("dns.example"), "/dns-query", pe(name("other.example"))), mean("tcp", name("dns.example"), "", nil)} {
+			id := fmt.Sprintf("cat:newb:%d:%d", i, j)
+			if o.Want(id) {
+				runNewB(w, id, u, b)
+			}
+		}
+	}
+
 	// generated: helper level and creation
 	n := o.Count(900, 30000)
 	for i := 0; i < n; i++ {
@@ -1316,6 +1501,8 @@ func main() {
 				d = genInp(r)
 			}
 			runParse(w, id, genInp(r), d, hx.Pick(r, []uint16{53, 853, 443}))
+		case 19:
+			runNewB(w, id, genUin(r), genBs(r))
 		default:
 			runNew(w, id, genUin(r), r.Bool())
 		}
